@@ -176,117 +176,117 @@ func vPrefix(t types.TxType) {
 	vCover("end")
 }
 
-//verif:obligation C12.a.prefix.send tier=thorough use=world bounds=world(S,T,G,F),arbitrary-tx-fields covers=accepted,rejected
+//verif:obligation C12.a.prefix.send tier=extended use=world bounds=world(S,T,G,F),arbitrary-tx-fields covers=accepted,rejected
 // The type-independent part of ValidateTx (per-type validators replaced by a recording no-op) for a SendTx:
 // never panics; whenever it hands over to the per-type validator the prefix post-condition holds.
 func H_C12a_Prefix_SendTx() { vPrefix(types.SendTx) }
 
-//verif:obligation C12.a.prefix.activation tier=thorough use=world bounds=world(S,T,G,F),arbitrary-tx-fields covers=accepted,rejected
+//verif:obligation C12.a.prefix.activation tier=extended use=world bounds=world(S,T,G,F),arbitrary-tx-fields covers=accepted,rejected
 // The type-independent part of ValidateTx (per-type validators replaced by a recording no-op) for a ActivationTx:
 // never panics; whenever it hands over to the per-type validator the prefix post-condition holds.
 func H_C12a_Prefix_ActivationTx() { vPrefix(types.ActivationTx) }
 
-//verif:obligation C12.a.prefix.invite tier=thorough use=world bounds=world(S,T,G,F),arbitrary-tx-fields covers=accepted,rejected
+//verif:obligation C12.a.prefix.invite tier=extended use=world bounds=world(S,T,G,F),arbitrary-tx-fields covers=accepted,rejected
 // The type-independent part of ValidateTx (per-type validators replaced by a recording no-op) for a InviteTx:
 // never panics; whenever it hands over to the per-type validator the prefix post-condition holds.
 func H_C12a_Prefix_InviteTx() { vPrefix(types.InviteTx) }
 
-//verif:obligation C12.a.prefix.kill tier=thorough use=world bounds=world(S,T,G,F),arbitrary-tx-fields covers=accepted,rejected
+//verif:obligation C12.a.prefix.kill tier=extended use=world bounds=world(S,T,G,F),arbitrary-tx-fields covers=accepted,rejected
 // The type-independent part of ValidateTx (per-type validators replaced by a recording no-op) for a KillTx:
 // never panics; whenever it hands over to the per-type validator the prefix post-condition holds.
 func H_C12a_Prefix_KillTx() { vPrefix(types.KillTx) }
 
-//verif:obligation C12.a.prefix.submitflip tier=thorough use=world bounds=world(S,T,G,F),arbitrary-tx-fields covers=accepted,rejected
+//verif:obligation C12.a.prefix.submitflip tier=extended use=world bounds=world(S,T,G,F),arbitrary-tx-fields covers=accepted,rejected
 // The type-independent part of ValidateTx (per-type validators replaced by a recording no-op) for a SubmitFlipTx:
 // never panics; whenever it hands over to the per-type validator the prefix post-condition holds.
 func H_C12a_Prefix_SubmitFlipTx() { vPrefix(types.SubmitFlipTx) }
 
-//verif:obligation C12.a.prefix.answershash tier=thorough use=world bounds=world(S,T,G,F),arbitrary-tx-fields covers=accepted,rejected
+//verif:obligation C12.a.prefix.answershash tier=extended use=world bounds=world(S,T,G,F),arbitrary-tx-fields covers=accepted,rejected
 // The type-independent part of ValidateTx (per-type validators replaced by a recording no-op) for a SubmitAnswersHashTx:
 // never panics; whenever it hands over to the per-type validator the prefix post-condition holds.
 func H_C12a_Prefix_SubmitAnswersHashTx() { vPrefix(types.SubmitAnswersHashTx) }
 
-//verif:obligation C12.a.prefix.shortanswers tier=thorough use=world bounds=world(S,T,G,F),arbitrary-tx-fields covers=accepted,rejected
+//verif:obligation C12.a.prefix.shortanswers tier=extended use=world bounds=world(S,T,G,F),arbitrary-tx-fields covers=accepted,rejected
 // The type-independent part of ValidateTx (per-type validators replaced by a recording no-op) for a SubmitShortAnswersTx:
 // never panics; whenever it hands over to the per-type validator the prefix post-condition holds.
 func H_C12a_Prefix_SubmitShortAnswersTx() { vPrefix(types.SubmitShortAnswersTx) }
 
-//verif:obligation C12.a.prefix.longanswers tier=thorough use=world bounds=world(S,T,G,F),arbitrary-tx-fields covers=accepted,rejected
+//verif:obligation C12.a.prefix.longanswers tier=extended use=world bounds=world(S,T,G,F),arbitrary-tx-fields covers=accepted,rejected
 // The type-independent part of ValidateTx (per-type validators replaced by a recording no-op) for a SubmitLongAnswersTx:
 // never panics; whenever it hands over to the per-type validator the prefix post-condition holds.
 func H_C12a_Prefix_SubmitLongAnswersTx() { vPrefix(types.SubmitLongAnswersTx) }
 
-//verif:obligation C12.a.prefix.evidence tier=thorough use=world bounds=world(S,T,G,F),arbitrary-tx-fields covers=accepted,rejected
+//verif:obligation C12.a.prefix.evidence tier=extended use=world bounds=world(S,T,G,F),arbitrary-tx-fields covers=accepted,rejected
 // The type-independent part of ValidateTx (per-type validators replaced by a recording no-op) for a EvidenceTx:
 // never panics; whenever it hands over to the per-type validator the prefix post-condition holds.
 func H_C12a_Prefix_EvidenceTx() { vPrefix(types.EvidenceTx) }
 
-//verif:obligation C12.a.prefix.onlinestatus tier=thorough use=world bounds=world(S,T,G,F),arbitrary-tx-fields covers=accepted,rejected
+//verif:obligation C12.a.prefix.onlinestatus tier=extended use=world bounds=world(S,T,G,F),arbitrary-tx-fields covers=accepted,rejected
 // The type-independent part of ValidateTx (per-type validators replaced by a recording no-op) for a OnlineStatusTx:
 // never panics; whenever it hands over to the per-type validator the prefix post-condition holds.
 func H_C12a_Prefix_OnlineStatusTx() { vPrefix(types.OnlineStatusTx) }
 
-//verif:obligation C12.a.prefix.killinvitee tier=thorough use=world bounds=world(S,T,G,F),arbitrary-tx-fields covers=accepted,rejected
+//verif:obligation C12.a.prefix.killinvitee tier=extended use=world bounds=world(S,T,G,F),arbitrary-tx-fields covers=accepted,rejected
 // The type-independent part of ValidateTx (per-type validators replaced by a recording no-op) for a KillInviteeTx:
 // never panics; whenever it hands over to the per-type validator the prefix post-condition holds.
 func H_C12a_Prefix_KillInviteeTx() { vPrefix(types.KillInviteeTx) }
 
-//verif:obligation C12.a.prefix.changegod tier=thorough use=world bounds=world(S,T,G,F),arbitrary-tx-fields covers=accepted,rejected
+//verif:obligation C12.a.prefix.changegod tier=extended use=world bounds=world(S,T,G,F),arbitrary-tx-fields covers=accepted,rejected
 // The type-independent part of ValidateTx (per-type validators replaced by a recording no-op) for a ChangeGodAddressTx:
 // never panics; whenever it hands over to the per-type validator the prefix post-condition holds.
 func H_C12a_Prefix_ChangeGodAddressTx() { vPrefix(types.ChangeGodAddressTx) }
 
-//verif:obligation C12.a.prefix.burn tier=thorough use=world bounds=world(S,T,G,F),arbitrary-tx-fields covers=accepted,rejected
+//verif:obligation C12.a.prefix.burn tier=extended use=world bounds=world(S,T,G,F),arbitrary-tx-fields covers=accepted,rejected
 // The type-independent part of ValidateTx (per-type validators replaced by a recording no-op) for a BurnTx:
 // never panics; whenever it hands over to the per-type validator the prefix post-condition holds.
 func H_C12a_Prefix_BurnTx() { vPrefix(types.BurnTx) }
 
-//verif:obligation C12.a.prefix.changeprofile tier=thorough use=world bounds=world(S,T,G,F),arbitrary-tx-fields covers=accepted,rejected
+//verif:obligation C12.a.prefix.changeprofile tier=extended use=world bounds=world(S,T,G,F),arbitrary-tx-fields covers=accepted,rejected
 // The type-independent part of ValidateTx (per-type validators replaced by a recording no-op) for a ChangeProfileTx:
 // never panics; whenever it hands over to the per-type validator the prefix post-condition holds.
 func H_C12a_Prefix_ChangeProfileTx() { vPrefix(types.ChangeProfileTx) }
 
-//verif:obligation C12.a.prefix.deleteflip tier=thorough use=world bounds=world(S,T,G,F),arbitrary-tx-fields covers=accepted,rejected
+//verif:obligation C12.a.prefix.deleteflip tier=extended use=world bounds=world(S,T,G,F),arbitrary-tx-fields covers=accepted,rejected
 // The type-independent part of ValidateTx (per-type validators replaced by a recording no-op) for a DeleteFlipTx:
 // never panics; whenever it hands over to the per-type validator the prefix post-condition holds.
 func H_C12a_Prefix_DeleteFlipTx() { vPrefix(types.DeleteFlipTx) }
 
-//verif:obligation C12.a.prefix.deploy tier=thorough use=world bounds=world(S,T,G,F),arbitrary-tx-fields covers=accepted,rejected
+//verif:obligation C12.a.prefix.deploy tier=extended use=world bounds=world(S,T,G,F),arbitrary-tx-fields covers=accepted,rejected
 // The type-independent part of ValidateTx (per-type validators replaced by a recording no-op) for a DeployContractTx:
 // never panics; whenever it hands over to the per-type validator the prefix post-condition holds.
 func H_C12a_Prefix_DeployContractTx() { vPrefix(types.DeployContractTx) }
 
-//verif:obligation C12.a.prefix.call tier=thorough use=world bounds=world(S,T,G,F),arbitrary-tx-fields covers=accepted,rejected
+//verif:obligation C12.a.prefix.call tier=extended use=world bounds=world(S,T,G,F),arbitrary-tx-fields covers=accepted,rejected
 // The type-independent part of ValidateTx (per-type validators replaced by a recording no-op) for a CallContractTx:
 // never panics; whenever it hands over to the per-type validator the prefix post-condition holds.
 func H_C12a_Prefix_CallContractTx() { vPrefix(types.CallContractTx) }
 
-//verif:obligation C12.a.prefix.terminate tier=thorough use=world bounds=world(S,T,G,F),arbitrary-tx-fields covers=accepted,rejected
+//verif:obligation C12.a.prefix.terminate tier=extended use=world bounds=world(S,T,G,F),arbitrary-tx-fields covers=accepted,rejected
 // The type-independent part of ValidateTx (per-type validators replaced by a recording no-op) for a TerminateContractTx:
 // never panics; whenever it hands over to the per-type validator the prefix post-condition holds.
 func H_C12a_Prefix_TerminateContractTx() { vPrefix(types.TerminateContractTx) }
 
-//verif:obligation C12.a.prefix.delegate tier=thorough use=world bounds=world(S,T,G,F),arbitrary-tx-fields covers=accepted,rejected
+//verif:obligation C12.a.prefix.delegate tier=extended use=world bounds=world(S,T,G,F),arbitrary-tx-fields covers=accepted,rejected
 // The type-independent part of ValidateTx (per-type validators replaced by a recording no-op) for a DelegateTx:
 // never panics; whenever it hands over to the per-type validator the prefix post-condition holds.
 func H_C12a_Prefix_DelegateTx() { vPrefix(types.DelegateTx) }
 
-//verif:obligation C12.a.prefix.undelegate tier=thorough use=world bounds=world(S,T,G,F),arbitrary-tx-fields covers=accepted,rejected
+//verif:obligation C12.a.prefix.undelegate tier=extended use=world bounds=world(S,T,G,F),arbitrary-tx-fields covers=accepted,rejected
 // The type-independent part of ValidateTx (per-type validators replaced by a recording no-op) for a UndelegateTx:
 // never panics; whenever it hands over to the per-type validator the prefix post-condition holds.
 func H_C12a_Prefix_UndelegateTx() { vPrefix(types.UndelegateTx) }
 
-//verif:obligation C12.a.prefix.killdelegator tier=thorough use=world bounds=world(S,T,G,F),arbitrary-tx-fields covers=accepted,rejected
+//verif:obligation C12.a.prefix.killdelegator tier=extended use=world bounds=world(S,T,G,F),arbitrary-tx-fields covers=accepted,rejected
 // The type-independent part of ValidateTx (per-type validators replaced by a recording no-op) for a KillDelegatorTx:
 // never panics; whenever it hands over to the per-type validator the prefix post-condition holds.
 func H_C12a_Prefix_KillDelegatorTx() { vPrefix(types.KillDelegatorTx) }
 
-//verif:obligation C12.a.prefix.storetoipfs tier=thorough use=world bounds=world(S,T,G,F),arbitrary-tx-fields covers=accepted,rejected
+//verif:obligation C12.a.prefix.storetoipfs tier=extended use=world bounds=world(S,T,G,F),arbitrary-tx-fields covers=accepted,rejected
 // The type-independent part of ValidateTx (per-type validators replaced by a recording no-op) for a StoreToIpfsTx:
 // never panics; whenever it hands over to the per-type validator the prefix post-condition holds.
 func H_C12a_Prefix_StoreToIpfsTx() { vPrefix(types.StoreToIpfsTx) }
 
-//verif:obligation C12.a.prefix.replenish tier=thorough use=world bounds=world(S,T,G,F),arbitrary-tx-fields covers=accepted,rejected
+//verif:obligation C12.a.prefix.replenish tier=extended use=world bounds=world(S,T,G,F),arbitrary-tx-fields covers=accepted,rejected
 // The type-independent part of ValidateTx (per-type validators replaced by a recording no-op) for a ReplenishStakeTx:
 // never panics; whenever it hands over to the per-type validator the prefix post-condition holds.
 func H_C12a_Prefix_ReplenishStakeTx() { vPrefix(types.ReplenishStakeTx) }
